@@ -135,6 +135,8 @@ def compare_all(prop, lines, H, M, debug_build=False):
     nops = 0
     classes = set()
     for line, h, m in zip(lines, H, M):
+        if h == 'NOTRUN':
+            continue
         if line.startswith('S '):
             f, n, cl = vlib.compare_session(line, h, m, debug_build, prop.ignore_ops)
             nops += n
@@ -212,7 +214,7 @@ def run_check(pid, tier, seed, replay, t0, skip_proofs=False):
                 fo.write('\n'.join(badl[:50]) + '\n')
             return 2
         findings, nops, classes = compare_all(prop, lines, H, M)
-        nlines = len(lines)
+        nlines = len(lines) - sum(1 for h in H if h == 'NOTRUN')
         distinct = len(set(l for l, m in zip(lines, M) if any(c.isdigit() for c in m)))
         rs = random.Random(seed)
         for i in rs.sample(range(len(lines)), min(3, len(lines))):
@@ -248,7 +250,7 @@ def run_check(pid, tier, seed, replay, t0, skip_proofs=False):
 
     def still_fails_factory(kind):
         def still(line):
-            h = vlib.run_lines(main_bin, [line], 60)
+            h = vlib.run_lines(main_bin, [line], 15)
             m = vlib.run_lines(vlib.DRIVER, [line], 60)
             if not h or not m:
                 return False
